@@ -263,7 +263,7 @@ fn run_case(generator: &'static str, cfg: &Cfg, index: u64, stats: &mut Stats) {
     if tokens.len() >= 2 {
         stats.nontrivial_hash(sources.hash());
     }
-    if index == 7 {
+    if stats.samples.is_empty() {
         stats.sample(json!({"generator": generator, "input": text.chars().take(400).collect::<String>(), "class": class}));
     }
     let overlay_like = !sources.files[0].0.starts_with('/');
